@@ -38,6 +38,16 @@ func skipLine(pl, indent string) string {
 	return ""
 }
 
+func enumLine(pl, indent string) string {
+	switch pl {
+	case "yes":
+		return indent + "// goverter:enum yes\n"
+	case "no":
+		return indent + "// goverter:enum no\n"
+	}
+	return ""
+}
+
 func regexLine(pl, indent string) string {
 	switch pl {
 	case "match":
@@ -92,8 +102,13 @@ func cmdWitness(args []string) {
 	b := hx.NewBatch(*work)
 	b.WriteGoMod()
 	var src strings.Builder
-	src.WriteString("package p\n\nimport \"errors\"\n\ntype Inner struct{ V string }\ntype Inner2 struct{ V int }\ntype S1 struct{ I Inner }\ntype T1 struct{ I Inner2 }\ntype S2 struct{ J Inner }\ntype T2 struct{ J Inner2 }\ntype S3 struct{ K string }\ntype T3 struct{ K int }\ntype In6 struct{ L []int }\ntype Cu struct{ Tags []int }\ntype CuD struct{ Tags []int }\ntype S6 struct {\n\tI In6\n\tC Cu\n}\ntype T6 struct {\n\tI In6\n\tC CuD\n}\ntype S7 struct {\n\tI In6\n\tC Cu\n}\ntype T7 struct {\n\tI In6\n\tC CuD\n}\ntype S4 struct{ V string }\ntype T4 struct{ V string }\ntype S5 struct{ V string }\ntype T5 struct{ V string }\n\nfunc Fn(v string, kx int) string { return v }\n\nfunc Atoi(s string) (int, error) { return 0, errors.New(\"boom\") }\n")
+	src.WriteString("package p\n\nimport (\n\t\"errors\"\n\n\t\"" + b.Mod + "/ea\"\n\t\"" + b.Mod + "/eb\"\n)\n\ntype Inner struct{ V string }\ntype Inner2 struct{ V int }\ntype S1 struct{ I Inner }\ntype T1 struct{ I Inner2 }\ntype S2 struct{ J Inner }\ntype T2 struct{ J Inner2 }\ntype S3 struct{ K string }\ntype T3 struct{ K int }\ntype SE1 struct{ C ea.Col }\ntype TE1 struct{ C eb.Col }\ntype SE2 struct{ C ea.Col }\ntype TE2 struct{ C eb.Col }\ntype In6 struct{ L []int }\ntype Cu struct{ Tags []int }\ntype CuD struct{ Tags []int }\ntype S6 struct {\n\tI In6\n\tC Cu\n}\ntype T6 struct {\n\tI In6\n\tC CuD\n}\ntype S7 struct {\n\tI In6\n\tC Cu\n}\ntype T7 struct {\n\tI In6\n\tC CuD\n}\ntype S4 struct{ V string }\ntype T4 struct{ V string }\ntype S5 struct{ V string }\ntype T5 struct{ V string }\n\nfunc Fn(v string, kx int) string { return v }\n\nfunc Atoi(s string) (int, error) { return 0, errors.New(\"boom\") }\n")
 	for i, s := range scens {
+		if s.Kind == "enumoff" {
+			fmt.Fprintf(&src, "\n// goverter:converter\n// goverter:enum:unknown @ignore\n%s// goverter:output:file ../gen/c%d.go\n// goverter:output:package %s/gen\ntype C%d interface {\n%s\tM1(source SE1) TE1\n%s\tM2(source SE2) TE2\n}\n",
+				enumLine(s.PC, ""), i, b.Mod, i, enumLine(s.P1, "\t"), enumLine(s.P2, "\t"))
+			continue
+		}
 		if s.Kind == "skipcopy" {
 			fmt.Fprintf(&src, "\n// goverter:converter\n%s// goverter:output:file ../gen/c%d.go\n// goverter:output:package %s/gen\ntype C%d interface {\n%s\tM1(source S6) T6\n%s\tM2(source S7) T7\n}\n",
 				skipLine(s.PC, ""), i, b.Mod, i, skipLine(s.P1, "\t"), skipLine(s.P2, "\t"))
@@ -112,7 +127,9 @@ func cmdWitness(args []string) {
 		fmt.Fprintf(&src, "\n// goverter:converter\n// goverter:extend Atoi\n%s// goverter:output:file ../gen/c%d.go\n// goverter:output:package %s/gen\ntype C%d interface {\n%s\tM1(source S1) (T1, error)\n%s\tM2(source S2) (T2, error)\n}\n",
 			wrapLine(s.PC, ""), i, b.Mod, i, wrapLine(s.P1, "\t"), wrapLine(s.P2, "\t"))
 	}
-	hx.WriteTree(*work, map[string]string{"p/in.go": src.String()})
+	hx.WriteTree(*work, map[string]string{"p/in.go": src.String(),
+		"ea/e.go": "package ea\n\ntype Col int\n\nconst (\n\tRed   Col = 1\n\tGreen Col = 2\n)\n",
+		"eb/e.go": "package eb\n\ntype Col int\n\nconst (\n\tGreen Col = 1\n\tRed   Col = 2\n)\n"})
 	t0 := time.Now()
 	outs, err := hx.GenerateEach(hx.GenConfig(*work, []string{"./p"}, nil))
 	hx.Must(err)
@@ -123,7 +140,14 @@ func cmdWitness(args []string) {
 	inner := stv(map[string]any{"k": "b", "tok": "a"})
 	for i, o := range outs {
 		for m := 1; m <= 2; m++ {
-			if o.Gen == "ok" && scens[i].Kind == "skipcopy" {
+			if o.Gen == "ok" && scens[i].Kind == "enumoff" {
+				if m == 1 {
+					b.WriteOutputs(i, o.Files)
+				}
+				b.OK[2*i+m-1] = true
+				b.Reg[2*i+m-1] = fmt.Sprintf("reflect.ValueOf((&gen.C%dImpl{}).M%d)", i, m)
+				w.Write(map[string]any{"ins": []any{}, "lit": true, "calls": []any{map[string]any{"args": []any{stv(map[string]any{"k": "b", "tok": "#1"})}, "dump": []int{}}}})
+			} else if o.Gen == "ok" && scens[i].Kind == "skipcopy" {
 				if m == 1 {
 					b.WriteOutputs(i, o.Files)
 				}
@@ -160,9 +184,21 @@ func cmdWitness(args []string) {
 	hx.Must(err)
 	msg := map[int]string{}
 	alias := map[int][]bool{}
+	byName, seenNum := map[int]bool{}, map[int]bool{}
 	for _, r := range recs {
 		id := int(r["id"].(float64))
 		msg[id], _ = r["err"].(string)
+		// enumoff witnesses: the number Red (1) arrives as
+		if outs, ok := r["outs"].([]any); ok && len(outs) > 0 {
+			if st, ok := outs[0].(map[string]any); ok && st["k"] == "st" {
+				if fs, ok := st["fs"].([]any); ok && len(fs) == 1 {
+					if tok, _ := fs[0].(map[string]any)["tok"].(string); tok != "" {
+						byName[id] = tok == "#2"
+						seenNum[id] = true
+					}
+				}
+			}
+		}
 		// skipcopy witnesses: does the result share the slices of the source? (address label of the input allocation)
 		if outs, ok := r["outs"].([]any); ok && len(outs) > 0 {
 			if st, ok := outs[0].(map[string]any); ok && st["k"] == "st" {
@@ -194,7 +230,7 @@ func cmdWitness(args []string) {
 			msg[2*i+1] = "" // M2 of a direct program is only there to keep the registry shape; it is not judged
 		}
 		obs.Write(map[string]any{"id": i, "kind": scens[i].Kind, "pc": scens[i].PC, "p1": scens[i].P1, "p2": scens[i].P2, "gen": o.Gen, "why": why, "compiles": !badc,
-			"alias": aliasOf(alias, i), "chain1": chainOf(msg[2*i]), "chain2": chainOf(msg[2*i+1]), "msg1": msg[2*i], "imports": imps, "decls": decls, "diag": firstLine(o.Why)})
+			"alias": aliasOf(alias, i), "byname": []bool{byName[2*i], byName[2*i+1]}, "numseen": []bool{seenNum[2*i], seenNum[2*i+1]}, "chain1": chainOf(msg[2*i]), "chain2": chainOf(msg[2*i+1]), "msg1": msg[2*i], "imports": imps, "decls": decls, "diag": firstLine(o.Why)})
 	}
 	js, _ := json.Marshal(map[string]any{"scenarios": len(scens), "executions": len(recs), "gen_s": b.Timing["gen"].Seconds(), "build_s": b.Timing["build"].Seconds()})
 	fmt.Println("HARNESS-SUMMARY " + string(js))
